@@ -32,18 +32,31 @@ gen_modfile() { # $1 = low copy dir, $2 = modfile path
   cat "$REPO/go.sum" "$HERE/sim/go.sum" 2>/dev/null | sort -u > "${2%.mod}.sum"
 }
 
+# Every flavour is built from a scratch copy that went through yieldinject's
+# SEAMS pass: time.Now/Since/Until/Sleep and package-level math/rand functions of
+# the code under test are redirected to the simulator's clock and seeded
+# randomness (a no-op on a tree that uses neither). VERIF_SIM makes them active
+# from process start in every process of the simulator.
+export VERIF_SIM=1
+build_yi() {
+  [ -x "$W/yieldinject" ] && return 0
+  (cd "$HERE/sim" && go build -modfile="$W/plain.mod" -o "$W/yieldinject" ./cmd/yieldinject) >"$W/build-yi.log" 2>&1 \
+    || { cat "$W/build-yi.log"; die2 "build (yieldinject) failed"; }
+}
 build_plain() {
   [ -x "$W/verif" ] && return 0
   prepare_copy "$W/low"
   gen_modfile "$W/low" "$W/plain.mod"
-  (cd "$HERE/sim" && go build -modfile="$W/plain.mod" -tags verif -o "$W/verif" ./cmd/verif) >"$W/build-plain.log" 2>&1 \
+  build_yi
+  "$W/yieldinject" "$W/low" >"$W/seams.log" 2>&1 || { cat "$W/seams.log"; die2 "seam injection failed"; }
+  (cd "$HERE/sim" && go build -modfile="$W/plain.mod" -tags "verif verifseams" -o "$W/verif" ./cmd/verif) >"$W/build-plain.log" 2>&1 \
     || { cat "$W/build-plain.log"; die2 "build (plain) failed"; }
 }
 
 build_race() {
   [ -x "$W/verif-race" ] && return 0
   build_plain
-  (cd "$HERE/sim" && go build -race -modfile="$W/plain.mod" -tags verif -o "$W/verif-race" ./cmd/verif) >"$W/build-race.log" 2>&1 \
+  (cd "$HERE/sim" && go build -race -modfile="$W/plain.mod" -tags "verif verifseams" -o "$W/verif-race" ./cmd/verif) >"$W/build-race.log" 2>&1 \
     || { cat "$W/build-race.log"; die2 "build (race) failed"; }
 }
 
@@ -51,11 +64,10 @@ build_yield() {
   [ -x "$W/verif-yield" ] && return 0
   build_plain
   prepare_copy "$W/lowY"
-  (cd "$HERE/sim" && go build -modfile="$W/plain.mod" -o "$W/yieldinject" ./cmd/yieldinject) >"$W/build-yi.log" 2>&1 \
-    || { cat "$W/build-yi.log"; die2 "build (yieldinject) failed"; }
+  build_yi
   "$W/yieldinject" "$W/lowY" bitmap bmtree bitstr bitword sigbits >"$W/yi.log" 2>&1 || { cat "$W/yi.log"; die2 "yield injection failed"; }
   gen_modfile "$W/lowY" "$W/yield.mod"
-  (cd "$HERE/sim" && go build -modfile="$W/yield.mod" -tags "verif verifyield" -o "$W/verif-yield" ./cmd/verif) >"$W/build-yield.log" 2>&1 \
+  (cd "$HERE/sim" && go build -modfile="$W/yield.mod" -tags "verif verifyield verifseams" -o "$W/verif-yield" ./cmd/verif) >"$W/build-yield.log" 2>&1 \
     || { cat "$W/build-yield.log"; die2 "build (yield) failed"; }
 }
 
